@@ -25,7 +25,14 @@ func (fio *FileIO) Read(b []byte, offset int64) (int, error) {
 }
 
 func (fio *FileIO) Write(b []byte) (int, error) {
-	return fio.fd.Write(b)
+	n, err := fio.fd.Write(b)
+	if err != nil && n > 0 {
+		// 部分写入 (例如磁盘写满): 调用方认为本次追加未发生, 残留的部分数据会使后续追加的记录偏离其记录的位置, 需回退
+		if info, statErr := fio.fd.Stat(); statErr == nil && fio.fd.Truncate(info.Size()-int64(n)) == nil {
+			n = 0
+		}
+	}
+	return n, err
 }
 
 func (fio *FileIO) Sync() error {
